@@ -43,8 +43,19 @@ BUILTIN_ESTS = {   # independent definitions of the documented estimators
     "x0y0z0": lambda a: a[0, 0, 0], "x0y0z1": lambda a: a[0, 0, -1], "x0y1z0": lambda a: a[0, -1, 0], "x0y1z1": lambda a: a[0, -1, -1],
     "x1y0z0": lambda a: a[-1, 0, 0], "x1y0z1": lambda a: a[-1, 0, -1], "x1y1z0": lambda a: a[-1, -1, 0], "x1y1z1": lambda a: a[-1, -1, -1],
 }
-CUSTOM_VARS = {"curv": curv, "heavy": heavy}
-CUSTOM_ESTS = {"p5": p5}
+def cpx(rel):
+    # a complex-valued scalar field (like the Weyl scalars)
+    return rel["Ktrace"] + 1j * rel["gammadet"]
+
+
+def int0d(a):
+    # a weighted sum over the grid written with tensordot: the result is a 0-d array, not a Python / numpy scalar
+    w = np.ones(a.shape) / a.size
+    return np.tensordot(a, w, axes=3)
+
+
+CUSTOM_VARS = {"curv": curv, "heavy": heavy, "cpx": cpx}
+CUSTOM_ESTS = {"p5": p5, "int0d": int0d}
 
 
 ALL_TKEYS = '{{"it"}, {"t"}, {"it", "t"}, {"iteration"}, {"it", "time"}}'
